@@ -389,7 +389,7 @@ def run_case(case, observe=None):
 
 def plan(tier, seed):
     quick = tier == "quick"
-    return [("gen", {"shard": i, "n": 40 if quick else 320, "max_ops": 10 if quick else 16}) for i in range(16)]
+    return [("gen", {"shard": i, "n": 70 if quick else 320, "max_ops": 10 if quick else 16}) for i in range(16)]
 
 
 def run_task(name, kw, ctx):
